@@ -69,8 +69,8 @@ def runLog : Nat → St → St → List Ev → List String → St × List String
     match e with
     | .quiesce =>
       let newly := s'.subs.filterMap fun (r, _) =>
-        if !isPending (s'.futs r) && (isPending (sq.futs r) || (sq.futs r).isNone) then
-          some s!"{r}={kindFut (s'.futs r)}" else none
+        if !isPending (s'.futs.get r) && (isPending (sq.futs.get r) || (sq.futs.get r).isNone) then
+          some s!"{r}={kindFut (s'.futs.get r)}" else none
       runLog (i + 1) s' s' es ((s!"q{i}:{s'.sent.length}:" ++ ",".intercalate newly) :: log)
     | _ => runLog (i + 1) sq s' es log
 
@@ -78,7 +78,7 @@ def stepLine (j : Json) : Option String := do
   let evs ← (← fArr j "events").mapM parseEv
   let (s, log) := runLog 0 init init evs []
   let frames := joinSp (s.sent.map showFrame)
-  let outs := joinSp (s.subs.map fun (r, _) => s!"{r}={showFut (s.futs r)}")
+  let outs := joinSp (s.subs.map fun (r, _) => s!"{r}={showFut (s.futs.get r)}")
   pure (frames ++ " | " ++ joinSp log ++ " | " ++ outs)
 
 def main : IO Unit := driverMain stepLine
